@@ -53,6 +53,34 @@ def num_json(x):
     return {"k": type(x).__name__}
 
 
+def make_reps():
+    """one representative value per runtime class the evaluator can produce"""
+    import ka.types as T
+    import ka.units as U
+    import ka.probability as P
+    import ka.plot as PL
+    from datetime import datetime
+    zero = U.QSPACE.get_zero()
+    reps = [
+        ("int", 1), ("bool", True), ("float", 1.5), ("Fraction", Fraction(1, 2)),
+        ("Combinatoric", T.Combinatoric(ns=[T.IntRange(2, 3)])),
+        ("Quantity", T.Quantity(1, zero)), ("Array", T.Array([1])), ("Interval", T.Interval(0, 1)),
+        ("Instant", T.Instant(datetime(2024, 1, 1))), ("str", "s"),
+        ("Binomial", P.Binomial(3, Fraction(1, 2))), ("Poisson", P.Poisson(2)),
+        ("Geometric", P.Geometric(Fraction(1, 2))), ("Bernoulli", P.Bernoulli(Fraction(1, 2))),
+        ("UniformInt", P.UniformInt(1, 3)), ("Exponential", P.Exponential(1)),
+        ("Uniform", P.Uniform(0, 1)), ("Gaussian", P.Gaussian(0, 1)),
+        ("Event", P.Event("<", P.Uniform(0, 1), 1)),
+        ("DoubleEvent", P.DoubleEvent("<", "<", 0, P.Uniform(0, 1), 1)),
+        ("PlotDrawing", PL.PlotDrawing(lambda: None, {})), ("NoneType", None),
+    ]
+    try:
+        reps.append(("PlotOptions", PL.options()))
+    except Exception:
+        pass
+    return reps
+
+
 def main():
     import ka.functions as F
     import ka.types as T
@@ -92,24 +120,7 @@ def main():
     assert len(set(names)) == len(names), names
     out["sig_types"] = names
     out["subclass"] = [[1 if F.type_below(a, b) else 0 for b in sig_types] for a in sig_types]
-    zero = U.QSPACE.get_zero()
-    reps = [
-        ("int", 1), ("bool", True), ("float", 1.5), ("Fraction", Fraction(1, 2)),
-        ("Combinatoric", T.Combinatoric(ns=[T.IntRange(2, 3)])),
-        ("Quantity", T.Quantity(1, zero)), ("Array", T.Array([1])), ("Interval", T.Interval(0, 1)),
-        ("Instant", T.Instant(datetime(2024, 1, 1))), ("str", "s"),
-        ("Binomial", P.Binomial(3, Fraction(1, 2))), ("Poisson", P.Poisson(2)),
-        ("Geometric", P.Geometric(Fraction(1, 2))), ("Bernoulli", P.Bernoulli(Fraction(1, 2))),
-        ("UniformInt", P.UniformInt(1, 3)), ("Exponential", P.Exponential(1)),
-        ("Uniform", P.Uniform(0, 1)), ("Gaussian", P.Gaussian(0, 1)),
-        ("Event", P.Event("<", P.Uniform(0, 1), 1)),
-        ("DoubleEvent", P.DoubleEvent("<", "<", 0, P.Uniform(0, 1), 1)),
-        ("PlotDrawing", PL.PlotDrawing(lambda: None, {})), ("NoneType", None),
-    ]
-    try:
-        reps.append(("PlotOptions", PL.options()))
-    except Exception:
-        pass
+    reps = make_reps()
     out["kinds"] = [k for k, _ in reps]
     out["isinstance"] = [[1 if T.is_type(v, t) else 0 for t in sig_types] for _, v in reps]
 
@@ -156,7 +167,7 @@ def main():
     def except_lists(path, funcs):
         tree = ast.parse(open(path).read())
         res = {}
-        for node in ast.walk(tree):
+        for node in tree.body:
             if isinstance(node, ast.FunctionDef) and node.name in funcs:
                 tries = []
                 for t in [n for n in ast.walk(node) if isinstance(n, ast.Try)]:
